@@ -11,7 +11,9 @@ class LTLExplainer(LtlAstVisitor):
     def explain(self, spec):
         self.spec = spec
         self.explanations = dict()
-        for spec in self.spec.specs:
+        # the specification is the assertion evaluate() reports (the last one): the earlier named
+        # sub-specifications are explained where the specification refers to them
+        for spec in self.spec.specs[-1:]:
             top_signal = self.spec.results[spec]
             if top_signal[0] < 0:
                 self.visit(spec, [[[0, 0]], False])
